@@ -11,7 +11,11 @@ const histRule = "one case = one generated history (explicit operation list over
 
 const varRule = "one case = one generated Set/Apply/Cancel/Reset history over 1-4 zoo variables (27 variables of every kind, exported by pointer and unexported by package.name) and 1-2 builders with seeded GC events between and inside steps; every step is followed by a direct read and an accessor read; non-trivial = at least two Set/Apply operations or a GC event; distinct = hash of (operations, fired events)"
 
+const stubRule = "one case = one stub configuration history (default first, then 0-3 When / In clauses with Return/AndReturn/Returns sequences of length 1-6, calls interleaved with configuration) on one zoo target (fixed, variadic with 0-2 leading fixed parameters) followed by sequential calls (real calls and When.Eval) and, for C05, 2-4 concurrent caller tasks preempted at matcher.result.loaded; non-trivial = at least one clause or a sequence longer than one or at least one context switch in the concurrent phase; distinct = hash of (operations, context-switch sequence, fired events)"
+
 func init() {
+	props["C04"] = propCfg{World: "stub", Level: "exploration", Quick: 8000, Thorough: 600000, Chunk: 200, Rule: stubRule, Assume: commonAssume}
+	props["C05"] = propCfg{World: "stub", Level: "exploration", Quick: 6000, Thorough: 400000, RaceQ: 600, RaceT: 30000, Chunk: 200, Rule: stubRule, Assume: commonAssume}
 	props["C08"] = propCfg{World: "var", Level: "exploration", Quick: 6000, Thorough: 400000, Chunk: 200, Rule: varRule, Assume: commonAssume}
 	props["C01"] = propCfg{World: "hist", Level: "exploration", Quick: 2400, Thorough: 120000, Chunk: 50, Rule: histRule, Assume: commonAssume}
 	props["C02"] = propCfg{World: "hist", Level: "exploration", Quick: 2400, Thorough: 120000, Chunk: 50, Rule: histRule, Assume: commonAssume}
